@@ -7,7 +7,8 @@ import Glom.Generated.C18Facts
 namespace Glom.C18
 
 def genFacts : Facts :=
-  { fmt := ⟨Generated.fmtDunderGuard, Generated.fmtTupleEmptyParen, Generated.fmtSingletonComma⟩
+  { fmt := ⟨Generated.fmtDunderGuard, Generated.fmtTupleEmptyParen, Generated.fmtSingletonComma,
+      Generated.fmtPathRootAware⟩
     getstateRoots := Generated.getstateRoots
     setstateRoots := Generated.setstateRoots
     getitemViaSteps := Generated.pathGetitemViaSteps
